@@ -157,6 +157,9 @@ def run(chk):
         (c2, bad2, m2), = run_cases(impl, model, [small])
         if not bad2:
             c2, bad2, m2 = c, bad, m
+        if signature(c2, bad2, m2) in seen and signature(c2, bad2, m2) != sig:
+            continue
+        seen.add(signature(c2, bad2, m2))
         chk.finding(signature(c2, bad2, m2), replay_obj(c2, bad2, m2),
                     'native callee does not receive the ABI image for %s via %s: %s' % (
                         G.proto_sig(c2['proto']), c2['engine'], '; '.join(bad2[:3])))
